@@ -156,6 +156,52 @@ def _shard_b(args):
     return {"n": n, "vb": vb}
 
 
+def _shard_flow(args):
+    """Control-flow scripts (mc/flow.py): the last instruction of every script executed in the object that ran the
+    script so far vs in a fresh object holding the same registers and memory."""
+    from .. import flow
+    seqs, st = args
+    h = rb.harness()
+    vb = VB()
+    n = 0
+    for seq in seqs:
+        r = flow.build(seq, st)
+        if r is None or len(seq) < 2:
+            continue
+        regs, mem, fill, pcs = r
+        k = len(seq)
+        wit = {"part": "F", "flow": list(seq), "state": c06_state(st)}
+        emu, fm = pycpu.make(regs, mem, fill)
+        o1 = pycpu.run(regs, mem, fill, steps=k - 1, emu_fm=(emu, fm))
+        if not o1["err"] and o1["power"] == "running":
+            fm.written.clear()
+            o2 = pycpu.run(regs, mem, fill, steps=1, emu_fm=(emu, fm))
+            r2, m2 = _after(regs, mem, fill, o1)
+            of = pycpu.run(r2, m2, fill, steps=1)
+            n += 1
+            if arch(o2) != arch(of):
+                vb.add(f"C07/python/history-dependence/flow/{seq[-1]}-after-{flow.name(seq[:-1])}"[:120],
+                       f"after the control-flow script {list(seq[:-1])}, executing {seq[-1]} in the same emulator differs from a fresh "
+                       f"emulator with the same registers/memory: {_diff(o2, of)}", wit)
+        a2, a1 = h.batch([c06.rs_req(regs, mem, fill, steps=k), c06.rs_req(regs, mem, fill, steps=k - 1)])
+        if a1.get("panic") or a1.get("err") or a1["power"] != "running" or a2.get("panic"):
+            continue
+        rr, mm = _after(regs, mem, fill, a1)
+        rr["IMR"] = a1["regs"]["IMR"]
+        af = h.call(c06.rs_req(rr, mm, fill, steps=1))
+        comb = dict((a, v) for a, v in a1["writes"])
+        comb.update((a, v) for a, v in af.get("writes", []))
+        n += 1
+        same = (not af.get("panic")) and all(a2["regs"][x] == af["regs"][x] for x in pycpu.ARCH_REGS) and \
+            sorted(comb.items()) == sorted((a, v) for a, v in a2["writes"]) and a2["power"] == af["power"] and \
+            a2["lens"][k - 1:] == af["lens"]
+        if not same:
+            vb.add(f"C07/rust/history-dependence/flow/{seq[-1]}-after-{flow.name(seq[:-1])}"[:120],
+                   f"after the control-flow script {list(seq[:-1])}, executing {seq[-1]} in the same LlamaState differs from a fresh "
+                   f"LlamaState with the same registers/memory: {_diff(a2, af) if not af.get('panic') else af}", wit)
+    return {"n": n, "vb": vb}
+
+
 def _loop_code(lp: List[str]) -> bytes:
     return b"".join(bytes.fromhex(x) for x in lp)
 
@@ -288,12 +334,16 @@ def run(ctx) -> None:
     hist = pal + [bytes.fromhex(x) for x in ("040610", "05081000", "fe")]  # CALL / CALLF / IR as histories
     resB = pmap(_shard_b, [(s, pal, st) for st in ([st_a, st_b] if ctx.thorough else [st_a]) for s in chunks(hist, nproc())])
     ctx.log(f"part B: {sum(r['n'] for r in resB)} (history, instruction) comparisons")
+    from .. import flow
+    fl = list(flow.scripts(5 if ctx.thorough else 4))
+    resF = pmap(_shard_flow, [(c, st_a) for c in chunks(fl, nproc() * 2)])
+    ctx.log(f"part F: {sum(r['n'] for r in resF)} control-flow scripts, last instruction same object vs fresh")
     K = 12 if ctx.thorough else 8
     resD = pmap(_shard_d, [(lp, st_a, K) for lp in c06.LOOPS])
     nE, vbE = _part_e(st_a)
     cases = [p for p in pal]
     resC = [_part_c((cases, st_a))]
-    for r in resA + resB + resD + resC:
+    for r in resA + resB + resD + resC + resF:
         ctx.merge_bucket(r["vb"])
     ctx.merge_bucket(vbE)
     total = sum(r["n"] for r in resA + resB + resD + resC) + nE
@@ -303,6 +353,7 @@ def run(ctx) -> None:
         "distinct_nontrivial": sum(r["n"] for r in resB) + sum(r["n"] for r in resA) // 12,
         "part_A_executions": sum(r["n"] for r in resA),
         "part_B_pairs": sum(r["n"] for r in resB),
+        "part_F_control_flow_scripts": sum(r["n"] for r in resF),
         "part_D_splits": sum(r["n"] for r in resD),
         "exhaustive": True,
         "rule": (f"A: every structural shape for prefix set {sorted(str(p) for p in pres)} x 3 TEMP fillings x 2 call-bookkeeping "
@@ -355,6 +406,11 @@ def replay(ctx, w) -> Optional[str]:
         return None
     if part == "B":
         r = _shard_b(([bytes.fromhex(w["H"])], [bytes.fromhex(w["X"])], st))
+        for sig, (cnt, wl) in r["vb"].d.items():
+            return wl[0][0]
+        return None
+    if part == "F":
+        r = _shard_flow(([tuple(w["flow"])], st))
         for sig, (cnt, wl) in r["vb"].d.items():
             return wl[0][0]
         return None
